@@ -19,6 +19,10 @@ type Result struct {
 	Ordered bool
 	// DontCare names the don't-care zone the evaluation ran into ("" = none).
 	DontCare string
+	// TrailScalars: in the zone "trailing-bare-descent" Locs holds every container the descent
+	// starts from and everything below it, each location once; the scalars the descent starts
+	// from are listed here (whether a descent selects a scalar it starts from is open).
+	TrailScalars []any
 	// Features seen while evaluating (for classification and known findings).
 	Feat map[string]bool
 }
@@ -213,6 +217,14 @@ func (ev *evaluator) path(p Path, cur any, curPath []any, top bool) []Loc {
 				ev.res.DontCare = "trailing-bare-descent"
 			}
 			for _, l := range locs {
+				if bare {
+					switch l.Val.(type) {
+					case map[string]any, []any:
+					default:
+						ev.res.TrailScalars = append(ev.res.TrailScalars, l.Val)
+						continue
+					}
+				}
 				next = append(next, l)
 				next = ev.descendants(l, next)
 			}
